@@ -144,4 +144,43 @@ def isAlive : Ev → Bool
 def Quiet (s : Flow) : Prop :=
   s.waiting = [] ∧ s.pending = none ∧ refreshIds s.slot = [] ∧ s.applying = []
 
+/-! ### ghost time: which fetch served which request
+
+`Timed` wraps a `Flow` with a logical clock that ticks when a request is made and when a full fetch / establishment
+attempt STARTS. `issued` records when each request was made, `fetchStart` when the running fetch was started, `served`
+which fetch (by its start time) produced the outcome handed to a request: the successful fetch whose metadata carried
+its reply channel into the slot (`publish_metadata`), or the failed attempt whose error it was answered with. -/
+
+structure Timed where
+  flow : Flow := {}
+  clock : Nat := 0
+  issued : List (Nat × Nat) := []
+  fetchStart : Nat := 0
+  served : List (Nat × Nat) := []
+  deriving Repr
+
+def tinit : Timed := {}
+
+def tstep (t : Timed) (e : Ev) : Timed :=
+  let f := t.flow
+  let t' := { t with flow := step f e }
+  match e with
+  | .request => { t' with issued := t.issued ++ [(f.next, t.clock)], clock := t.clock + 1 }
+  | .recvRequest =>
+    if !f.producerGone && !f.fetching && !f.waiting.isEmpty then { t' with fetchStart := t.clock, clock := t.clock + 1 }
+    else t'
+  | .periodicFetch =>
+    if !f.producerGone && !f.fetching then { t' with fetchStart := t.clock, clock := t.clock + 1 } else t'
+  | .fetchOk _ =>
+    if !f.producerGone && f.fetching && !f.consumerGone then
+      { t' with served := t.served ++ f.pending.toList.map (fun r => (r, t.fetchStart)) }
+    else t'
+  | .fetchErrNoCc =>
+    if !f.producerGone && f.fetching then
+      { t' with served := t.served ++ f.pending.toList.map (fun r => (r, t.fetchStart)) }
+    else t'
+  | _ => t'
+
+def trun (t : Timed) (evs : List Ev) : Timed := evs.foldl tstep t
+
 end ScyllaVerif.RefreshFlow
